@@ -19,7 +19,7 @@ Fixpoint hstream (t : term) : list hitem :=
   match t with
   | TAtom a => [hD 0; hS a]
   | TInt z => [hD 1; hZ z]
-  | TFloat b => [hD 2; hN b]
+  | TFloat b => [hD 2; hN (if (b =? 0) || (b =? 9223372036854775808) then 0 else b)]
   | TPid p => hD 3 :: hpid p
   | TPort n i c _ => [hD 4; hS n; hN i; hN c]
   | TRef n c ids _ => [hD 5; hS n; hN c; hL (len ids)] ++ map hN ids
